@@ -253,3 +253,20 @@ ben("c06-benign-helper", ["C06"], "src/query/condition.rs",
                 }
                 if plain(&current) {
                     if plain(&addition) {""")
+
+# ---- C04 -------------------------------------------------------------------------------------------------------
+brk("c04-no-doubling", ["C04"], "src/types.rs", "self.to_string().replace(qq, qq.repeat(2).as_str())", "self.to_string().replace(qq, qq)", "C04.R1:quoted:doubling")
+brk("c04-double-left-quote", ["C04"], "src/types.rs", "                let byte = [q.1];", "                let byte = [q.0];", "C04.R1:quoted:pattern")
+brk("c04-raw-alias", ["C04"], "src/backend/query_builder.rs",
+    """        if let Some(alias) = &select_expr.alias {
+            write!(sql, " AS ").unwrap();
+            alias.prepare(sql.as_writer(), self.quote());""",
+    """        if let Some(alias) = &select_expr.alias {
+            write!(sql, " AS ").unwrap();
+            write!(sql, "{}{}{}", self.quote().left(), alias.to_string(), self.quote().right()).unwrap();""", "C04.R2:region")
+brk("c04-unquoted-window-name", ["C04"], "src/backend/query_builder.rs",
+    """                write!(sql, " OVER ").unwrap();
+                name.prepare(sql.as_writer(), self.quote())""",
+    """                write!(sql, " OVER ").unwrap();
+                name.unquoted(sql.as_writer())""", "C04.R3:raw-iden")
+brk("c04-mysql-quote-const", ["C04"], "src/backend/mysql/mod.rs", "const QUOTE: Quote = Quote(b'`', b'`');", "const QUOTE: Quote = Quote(b'\"', b'\"');", "C04.R1:quote:mysql")
